@@ -17,11 +17,11 @@ META = {
         "seeded random scenarios: 0-12 payloads and 0-4 services per flavour; argument lists empty / positional "
         "only / keyword only / mixed, with mutable markers; submission before start (in 40 % of the scenarios by 2-4 threads at the same time), right after `running`, and "
         "after 10+ polling cycles; from an outside thread, from thread / asyncio / trio payloads, in bursts without "
-        "a checkpoint, through chains three deep and from executed payloads; services created before start, by the "
+        "a checkpoint, through chains three deep and from executed payloads; services (of classes decorated directly, plain subclasses, classes with falsy instances, subclasses decorated again with the same or the other coroutine flavour) created before start, by the "
         "driver, inside payloads, and as replacements for finished, garbage-collected services within one polling "
         "cycle; payloads that wait on a gate opened only after adopt returned (adopt must not wait for them); "
         "kind=storm: 40-130 services created (and some dropped) by 2-3 threads while the accept loop polls every 10-20 ms, with delay "
-        "injection also inside the WeakSet that registers the units; kind=idle: nothing keeps the asyncio loop busy and asyncio payloads are adopted from outside, from a thread payload and "
+        "injection also inside the WeakSet that registers the units; kind=redecorated: two forced schedules for a service class that is decorated twice (same / other flavour), the instance created while the accept loop polls between the two registrations (the recorded finding); kind=idle: nothing keeps the asyncio loop busy and asyncio payloads are adopted from outside, from a thread payload and "
         "from a thread payload that drives a private event loop; kind=window: adoption from outside threads and from inside cleaning-up payloads while a trio payload with "
         "long shielded cleanup keeps the runtime in its shutdown phase. Non-trivial = >= 3 adoptions judged."
     ),
@@ -38,10 +38,10 @@ ARGS = [([], {}), ([1], {}), ([], {"k": 1}), ([1, "two"], {"k": 1}), ([[1, 2]], 
 def plan(tier, seed):
     if tier == "thorough":
         return [dict(seed=seed, shard=i, n=70, kind="steady") for i in range(12)] + [dict(seed=seed, shard="w%d" % i, n=40, kind="window") for i in range(4)] + \
-            [dict(seed=seed, shard="known", n=1, kind="known")] + [dict(seed=seed, shard="idle%d" % i, n=20, kind="idle") for i in range(2)] + \
+            [dict(seed=seed, shard="known", n=1, kind="known"), dict(seed=seed, shard="redecorated", n=2, kind="redecorated")] + [dict(seed=seed, shard="idle%d" % i, n=20, kind="idle") for i in range(2)] + \
         [dict(seed=seed, shard="storm%d" % i, n=25, kind="storm") for i in range(2)]
     return [dict(seed=seed, shard="idle", n=6, kind="idle"), dict(seed=seed, shard="storm", n=6, kind="storm")] + [dict(seed=seed, shard=i, n=6, kind="steady") for i in range(12)] + [dict(seed=seed, shard="w%d" % i, n=5, kind="window") for i in range(4)] + \
-        [dict(seed=seed, shard="known", n=1, kind="known")]
+        [dict(seed=seed, shard="known", n=1, kind="known"), dict(seed=seed, shard="redecorated", n=2, kind="redecorated")]
 
 
 def leaf(rnd, pid, flavour=None, gate=False):
@@ -121,7 +121,16 @@ def gen_steady(rnd, spec):
         flavour = rnd.choice(common.FLAVOURS)
         sid = new_id("s")
         s = {"id": sid, "flavour": flavour, "program": rnd.choice([[["beat", 0.02, None]], [["sleep", 0.01]]]) if flavour != "threading" else [["block"]]}
+        # the class of the service: decorated directly, a plain subclass of that, one whose instances are falsy (an empty
+        # container), or a subclass that is declared a service once more - of the same or of the other coroutine flavour
+        s["shape"] = rnd.choice(["plain", "plain", "subclass", "falsy", "redecorated"])
+        if s["shape"] == "redecorated" and flavour in common.COROUTINE and rnd.random() < 0.5:
+            s["base_flavour"] = "trio" if flavour == "asyncio" else "asyncio"
         where = rnd.choice(["before", "driver", "late", "inside"])
+        if s["shape"] == "redecorated":
+            # created before the accept loop exists; with the loop running the base decorator's registration is visible
+            # to it for an instant - the recorded finding C03/redecorated-service-base-unit-started (kind=redecorated)
+            where = "before"
         if where == "before":
             s["create"] = "before"
         elif where == "driver":
@@ -311,7 +320,7 @@ def judge(case, run, result):
         result.inconc("watchdog fired: %s" % run.stacks[-1200:])
         return []
     if kind == "known":
-        result.inconc("the scenario of the recorded finding C03/adopt-trio-blocks-on-busy-trio-thread completed - finding no longer reproduces?")
+        result.count("scenario_of_a_recorded_finding_completed_without_it")
         return []
     homes = {}
     # adopt calls: None, no exception, and not waiting for the payload
@@ -348,6 +357,7 @@ def judge(case, run, result):
             result.count("starts_exactly_once_%s" % sp["flavour"])
             if pid.startswith("svc:"):
                 result.count("services_started_exactly_once")
+                result.count("services_of_shape_%s_started_exactly_once" % sp.get("shape", "plain"))
         for pid in case["meta"].get("dropped", []):
             starts = run.of("start", gen=0, pid=pid)
             if len(starts) > 1:
@@ -401,8 +411,39 @@ def execute(case, result):
     return judge(case, run, result), run
 
 
+def run_redecorated_shard(spec, result):
+    """Forced schedule (vlib/rt/redecorated.py): the accept loop polls between the two registrations of a service class
+    that is decorated twice.  On the pinned tree this is the recorded finding C03/redecorated-service-base-unit-started."""
+    import json
+    import subprocess
+
+    for i, variant in enumerate(("same", "moved")):
+        if spec.get("only_case") is not None and spec["only_case"] != i:
+            continue
+        case = {"kind": "redecorated", "variant": variant}
+        try:
+            proc = subprocess.run([core.PYTHON, "-m", "vlib.rt.redecorated", variant], capture_output=True, text=True, timeout=90)
+            out = json.loads(proc.stdout.strip().splitlines()[-1])
+        except Exception as err:  # noqa: B902
+            result.inconc("forced schedule %s did not run: %r" % (case, err))
+            continue
+        result.case(dict(case, observed=out), nontrivial=True, key=variant)
+        if out.get("inconclusive") or out.get("registrations") != 2:
+            result.inconc("forced schedule %s: %s" % (case, out.get("inconclusive") or "the class was not registered twice: %r" % (out,)))
+            continue
+        result.count("forced_redecorated_schedules_checked")
+        if out["started"] != out["want"] or out["accept"] != "returned":
+            clean = {k: v for k, v in spec.items() if k != "only_case"}
+            result.violation("a service class decorated twice (%s flavour), instance created while the accept loop polls between the two "
+                             "registrations: run() started as %r, expected %r (accept %s)" % (variant, out["started"], out["want"], out["accept"]),
+                             dict(case, observed=out), "C03/redecorated-service-base-unit-started", spec=clean, case_id=i)
+
+
 def run_shard(spec):
     result = core.Result()
+    if spec.get("kind") == "redecorated":
+        run_redecorated_shard(spec, result)
+        return result
     only = spec.get("only_case")
     gen = {"steady": gen_steady, "window": gen_window, "known": gen_known, "idle": gen_idle, "storm": gen_storm}[spec["kind"]]
     for i in range(spec["n"]):
@@ -422,7 +463,8 @@ def finish(total, tier):
     need = ["adoptions_judged", "starts_exactly_once_asyncio", "starts_exactly_once_trio", "starts_exactly_once_threading", "services_started_exactly_once",
             "gated_adopts_returned_before_payload_released", "scenarios_with_idle_asyncio_loop", "service_storms", "scenarios_with_bursts", "scenarios_with_replaced_services",
             "window_adopts_judged", "adopts_in_shutdown_window_inside", "adopts_in_shutdown_window_outside",
-            "scenarios_with_concurrent_registration_before_start"]
+            "scenarios_with_concurrent_registration_before_start", "forced_redecorated_schedules_checked"]
+    need += ["services_of_shape_%s_started_exactly_once" % k for k in ("plain", "subclass", "falsy", "redecorated")]
     for name in need:
         if not total.counters.get(name) and not total.violations:
             total.inconc("monitor never observed: " + name)
